@@ -87,21 +87,21 @@ G1 = mol([(3, 2, 1, 'q')], ff='G')                         # refused (force fiel
 BL = mol([('a', 1, 1, 'a'), ('b', 1, 2, 'b'), ('c', 2, 2, 'c')], [],
          {'bonds': [(('a', 'b'), 0, 's', True), (('b', 'c'), 0, 's', False)], 'impropers': [(('a', 'b', 'c'), 0, 'i', True)]},
          cit=('vermouth', 'cb'), log=[('t {a}', [])], types=T2)
-BM = mol([('a', 1, 1, 'a'), ('b', 1, 1, 'b')], [('a', 'b')], {'bonds': [(('a', 'b'), 0, 's', True)]}, types=T2)
+BM = mol([('a', 1, 1, 'a'), ('b', 1, 1, 'b'), ('c', 1, 2, 'c')], [('a', 'b'), ('b', 'c')], {'bonds': [(('a', 'b'), 0, 's', True)]}, types=T2)
 E2 = mol(types=T2)
 A2 = mol([(0, 1, 1, 'p'), (1, 2, 3, 'q')], [(0, 1)], {'bonds': [((0, 1), 0, 's', True)]}, meta='mA', cit=('vermouth', 'ca'),
          log=[('w {X}', [[('X', 1)]])], types=T2)
 W2 = mol([(1, 2, 2, 'p'), (2, 3, 1, 'q')], [(1, 2)], {'bonds': [((1, 2), 0, 's', True)]}, maxnode=2, types=T2)
 
 COMMON = {'BlockIds': '{}', 'EdgeTypes': '{"bonds"}', 'InitSys': '{<<>>}', 'BKey': '{}', 'BAtomSeqs': '{}', 'BRank': '<<>>',
-          'AttrChoice': ATTR, 'ChainSets': '{}', 'Offsets': '{}', 'MaxResid': '7', 'CacheModel': '"tracked"',
+          'AttrChoice': ATTR, 'ChainSets': '{}', 'Offsets': '{}', 'MaxResid': '99', 'CacheModel': '"tracked"',
           'OneShotPurges': 'TRUE', 'SysFF': '""'}
 EDIT_ACTS = ['AddNode', 'AddNodesFrom', 'SetResid', 'RemoveNode', 'RemoveNodesFrom', 'AddEdge', 'AddInter', 'AddOrReplace',
              'AddOrReplaceCite', 'RemoveInter', 'Copy', 'Subgraph', 'GraphCopy', 'Merge']
 SYS_ACTS = ['MergeAll', 'MergeChains', 'MergeChainsAll', 'Merge', 'AddNodesFrom', 'RemoveNode', 'AddNode', 'Copy', 'SetResid']
 BLK_ACTS = ['ToMol', 'Merge', 'MakeEdges', 'AddNode', 'RemoveNode', 'AddInter', 'AddInterNoEdge', 'AddOrReplaceCite']
 
-PROPS_COMMON = ('SPECIFICATION Spec\nCONSTRAINT Bounded\nINVARIANT NoDangling\nINVARIANT UniqueKeys\nINVARIANT SysWellFormed\n'
+PROPS_COMMON = ('SPECIFICATION Spec\nINVARIANT NoDangling\nINVARIANT UniqueKeys\nINVARIANT SysWellFormed\n'
                 'INVARIANT PartsWellFormed\nINVARIANT CacheSound\nPROPERTY MergeConserves\nPROPERTY Frame\n')
 CFG_TEXT = {
     'edit': PROPS_COMMON,
@@ -240,7 +240,10 @@ def store(w, d, obj):
 
 
 def _edge(a, b):
-    return (a, b) if a <= b else (b, a)
+    try:
+        return (a, b) if a <= b else (b, a)
+    except TypeError:           # keys of two kinds in one molecule: only a broken implementation gets here
+        return tuple(sorted((a, b), key=repr))
 
 
 def project_book(m):
@@ -493,10 +496,11 @@ def _replay_slice(job):
             for f in book:
                 differs['%s:differs:%s' % (name, f)] += 1
                 obs_sample.setdefault('differs:' + f, {'config': cfg, 'path': path + [label]})
-            if not book:
-                for c in tst['obs']:
-                    obs_ok['%s:%s' % (name, c)] += 1
-                    obs_sample.setdefault(c, {'config': cfg, 'path': path + [label]})
+            if book:
+                continue       # the real bookkeeping left the model here: the subtree would repeat the same difference
+            for c in tst['obs']:
+                obs_ok['%s:%s' % (name, c)] += 1
+                obs_sample.setdefault(c, {'config': cfg, 'path': path + [label]})
             if parent_edge.get(tgt) == (fp, label):
                 stack.append((tgt, w2, path + [label], False))
     return count, bad, dict(acts), dict(obs_ok), dict(differs), obs_sample
@@ -538,7 +542,7 @@ def _mc_job(job):
 
 def _sim_job(job):
     name, consts, work, seed, num, nworkers = job
-    res = tlc.run('MoleculeEdit', CFG_TEXT[name], consts=consts, workdir=os.path.join(work, 'sim_' + name), workers=nworkers, seed=seed,
+    res = tlc.run('MoleculeEdit', CFG_TEXT[name] + 'CONSTRAINT Bounded\n', consts=consts, workdir=os.path.join(work, 'sim_' + name), workers=nworkers, seed=seed,
                   simulate={'num': max(1, num // nworkers), 'file': True}, depth=int(consts['MaxDepth']) + 1, timeout=3000)
     res.stdout = res.stdout[-3000:]
     return 'sim', name, res, None
@@ -601,7 +605,7 @@ def absorb_replay(jobs, outs, info, ev, vd):
     acts = collections.defaultdict(collections.Counter)
     nb = ns = 0
     sim_acts = collections.Counter()
-    broken = set()          # configurations with a mismatch: the subtree below a mismatch is not replayed
+    broken = set()          # configurations with a mismatch or a bookkeeping difference: the subtree below it is not replayed
     for job, out in zip(jobs, outs):
         if job[0] == 'replay':
             cfg = job[1]
@@ -610,6 +614,8 @@ def absorb_replay(jobs, outs, info, ev, vd):
             acts[cfg].update(a)
             for b in bad:
                 vd.violation('replay-mismatch', b, b['diff'])
+                broken.add(cfg)
+            if differs:
                 broken.add(cfg)
             note_book(ev, obs_ok, differs, samples)
         elif job[0] == 'behaviours':
@@ -704,8 +710,9 @@ def _replay_behaviours(job):
 
 
 # ---------------------------------------------------------------- recorded histories (code -> spec)
-TR_TYPES = ['bonds', 'angles', 'impropers']
-TR_EDGE = ['bonds', 'angles']
+TR_TYPES = ['bonds', 'angles', 'impropers', 'exclusions', 'constraints']       # names vermouth treats differently
+TR_EDGE = ['bonds', 'angles', 'constraints']
+ARITY = {'bonds': 2, 'angles': 3, 'impropers': 3, 'exclusions': 2, 'constraints': 2}
 TR_CELLS = [1, 2, 3, 4]
 TR_BLOCKS = [4]
 BNAMES = ['a', 'b', 'c', 'd', 'e', 'f']
@@ -714,7 +721,8 @@ BNAMES = ['a', 'b', 'c', 'd', 'e', 'f']
 def mol_json(m, types, is_block, real=False):
     p = project(m, types, is_block, real)
     bk = p['bk']
-    return {'nodes': [dict(n) for n in p['nodes']], 'edges': sorted([list(e) for e in p['edges']]),
+    return {'nodes': [dict(n) for n in p['nodes']],
+            'edges': sorted([list(e) for e in p['edges']], key=lambda e: (0, e) if all(isinstance(x, int) for x in e) else (1, [repr(x) for x in e])),
             'inter': {t: [{'atoms': list(i['atoms']), 'ver': i['ver'], 'tag': i['tag'], 'edge': i['edge']} for i in p['inter'][t]]
                       for t in types},
             'extra': '_extra' in p['inter'], 'maxnode': p['maxnode'],
@@ -732,19 +740,44 @@ def world_json(w, types, blocks, real=False):
             'parts': sorted(groups.values())}
 
 
+def malformed(post, blocks):
+    """Representation check before TLC sees a world (TLC cannot compare a number with a string): the keys of a molecule
+    are numbers and those of a block are names, wherever they occur.  -> None or a description."""
+    for c, p in post:
+        want = str if c in blocks else int
+        seen = [n['key'] for n in p['nodes']] + [x for e in p['edges'] for x in e] + \
+               [x for lst in p['inter'].values() for it in lst for x in it['atoms']] + \
+               [pr[1] for e in p['bk']['log'] for em in e['ems'] for pr in em]
+        for k in seen:
+            if not isinstance(k, want) or isinstance(k, bool):
+                return 'cell %d (%s): the key %r is not a %s' % (c, 'block' if c in blocks else 'molecule', k, 'name' if want is str else 'number')
+    return None
+
+
 class Recorder:
-    """Runs calls on a real world and logs one event per call: arguments, error outcome, projection of the world after."""
+    """Runs calls on a real world and logs one event per call: arguments, error outcome, projection of the world after.
+    A world that cannot be represented (see `malformed`) ends the history: that event is rejected without asking TLC."""
     def __init__(self, w, types, blocks, real=False):
         self.w, self.types, self.blocks, self.real = w, list(types), set(blocks), real
         self.events = []
+        self.dead = False
+
+    def _close(self, ev):
+        ev.update(world_json(self.w, self.types, self.blocks, self.real))
+        bad = malformed(ev['post'], self.blocks)
+        if bad:
+            ev['malformed'] = bad
+            self.dead = True
+        self.events.append(ev)
 
     def load(self):
-        ev = {'ev': 'Load', 'm': 0, 'err': 'none'}
-        ev.update(world_json(self.w, self.types, self.blocks, self.real))
-        self.events.append(ev)
+        if not self.dead:
+            self._close({'ev': 'Load', 'm': 0, 'err': 'none'})
 
     def call(self, ev, fn):
         import networkx as nx
+        if self.dead:
+            return 'dead'
         err = 'none'
         try:
             fn()
@@ -760,8 +793,7 @@ class Recorder:
             err = 'Exception:%s' % type(exc).__name__
         ev = dict(ev)
         ev['err'] = err
-        ev.update(world_json(self.w, self.types, self.blocks, self.real))
-        self.events.append(ev)
+        self._close(ev)
         return err
 
 
@@ -824,7 +856,7 @@ def random_history(rng, nops):
             rec.call(ev, lambda: cells[m].add_edge(x, y))
         elif op in ('AddInter', 'AddOrReplace', 'RemoveInter'):
             ty = rng.choice(TR_TYPES)
-            n = 2 if ty == 'bonds' else 3
+            n = ARITY[ty]
             pool = present if present and rng.random() < 0.9 else keys
             if op != 'AddInter' and cells[m].interactions.get(ty) and rng.random() < 0.7:
                 at = list(rng.choice(cells[m].interactions[ty]).atoms)
@@ -905,7 +937,7 @@ def random_history(rng, nops):
                 rec.call(ev, lambda: blk.add_node(k, **attr_kwargs(ev['a'])))
             elif what == 'AddInter' and names:
                 ty = rng.choice(TR_TYPES)
-                at = [rng.choice(names) for _ in range(2 if ty == 'bonds' else 3)]
+                at = [rng.choice(names) for _ in range(ARITY[ty])]
                 edge = rng.random() < 0.7
                 ev = {'ev': 'AddInter', 'm': 4, 'ty': ty, 'at': at, 'v': 0, 't': 'b', 'edge': edge}
                 rec.call(ev, lambda: blk.add_interaction(ty, tuple(at), ['b'], meta=({} if edge else {'edge': False})))
@@ -950,7 +982,7 @@ def judge_batch(hists, book, types=TR_TYPES, edge_types=TR_EDGE, cells=TR_CELLS,
     """TLC judges a batch of recorded histories. -> (states, generated, {tid: (events accepted, why, seen)})"""
     work = tlc.scratch('c12t_')
     try:
-        tf = tlc.write_json(work, 'trace.json', hists)
+        tf = tlc.write_json(work, 'trace.json', [[e for e in h if 'malformed' not in e] for h in hists])
         consts = {'Types': tlaval.to_tla(frozenset(types)), 'EdgeTypes': tlaval.to_tla(frozenset(edge_types)),
                   'Cells': tlaval.to_tla(frozenset(cells)), 'BlockCells': tlaval.to_tla(frozenset(blocks)),
                   'CacheModel': '"tracked"', 'SysFF': tlaval.to_tla(sysff),
@@ -987,6 +1019,8 @@ def summarise(hists, verdicts, partial):
                 continue
             verdicts[ti] = (0, 'no-verdict', ())
         reached, why, seen = verdicts[ti]
+        if why == 'ok' and reached == len(h) - 1 and 'malformed' in h[-1]:
+            why = 'the world after the call cannot be represented: ' + h[-1]['malformed']
         for e in h[:reached]:
             out['by_event'][e['ev']] += 1
         for s in seen:
@@ -1009,6 +1043,9 @@ def minimal_prefix(h, reached):
     if reached == 0:
         return h[:1]
     prev = h[reached - 1]
+    if reached < len(h) and 'malformed' in h[reached]:
+        return {'calls_before': [{k: v for k, v in e.items() if k not in ('post', 'sys', 'parts')} for e in h[:reached]],
+                'judged': [{k: v for k, v in h[reached].items() if k not in ('post', 'sys', 'parts')}]}
     load = {'ev': 'Load', 'm': 0, 'err': 'none', 'post': prev['post'], 'sys': prev['sys'], 'parts': prev['parts']}
     calls = [{k: v for k, v in e.items() if k not in ('post', 'sys', 'parts')} for e in h[:reached]]
     return {'calls_before': calls, 'judged': [load] + h[reached:reached + 1]}
